@@ -27,6 +27,9 @@ pub struct DelaunayReport {
     /// many of them have a k=2 flip that would create an exactly degenerate (flat) cell
     pub local_facets: usize,
     pub local_facets_degenerate_flip: usize,
+    /// of those, the ones whose flat replacement cell lies in a supporting hyperplane of the hull
+    /// (every vertex weakly on one side): a flat configuration *on the boundary*
+    pub local_facets_degenerate_on_hull: usize,
 }
 
 impl DelaunayReport {
@@ -36,13 +39,44 @@ impl DelaunayReport {
             return "none".into();
         }
         let scope = if self.local_violations == self.violations.len() { "all-local-mutual" } else { "has-nonlocal" };
-        let flips = if self.local_facets > 0 && self.local_facets == self.local_facets_degenerate_flip {
-            "local-flips-all-degenerate"
-        } else {
-            "local-flip-available"
-        };
-        format!("{scope}|{flips}")
+        if self.local_facets > 0 && self.local_facets == self.local_facets_degenerate_flip {
+            let place = if self.local_facets_degenerate_on_hull > 0 { "hull" } else { "interior" };
+            return format!("{scope}|local-flips-all-degenerate|flat={place}");
+        }
+        format!("{scope}|local-flip-available")
     }
+}
+
+/// `flat` holds D+1 points of one hyperplane. True when that hyperplane supports the convex hull of
+/// all vertices, i.e. every vertex lies weakly on one side of it (exact signs; an undecidable
+/// non-zero sign counts as "no" so that the answer errs towards "interior").
+fn flat_cell_on_hull_plane(snap: &Snap, flat: &[&[f64]]) -> bool {
+    let d = snap.dim;
+    for omit in 0..flat.len() {
+        let base: Vec<&[f64]> = flat.iter().enumerate().filter(|(i, _)| *i != omit).map(|(_, p)| *p).collect();
+        if base.len() != d {
+            continue;
+        }
+        let (mut pos, mut neg, mut unsure) = (0usize, 0usize, 0usize);
+        for v in &snap.verts {
+            let mut pts = base.clone();
+            pts.push(v.coords.as_slice());
+            let o = exact::orient(&pts);
+            if o.sign != 0 && !o.decidable {
+                unsure += 1;
+            } else if o.sign > 0 {
+                pos += 1;
+            } else if o.sign < 0 {
+                neg += 1;
+            }
+        }
+        if pos + neg == 0 {
+            // these D points are themselves affinely dependent: try another subset
+            continue;
+        }
+        return unsure == 0 && (pos == 0 || neg == 0);
+    }
+    false
 }
 
 pub fn check(snap: &Snap) -> DelaunayReport {
@@ -101,6 +135,7 @@ pub fn check(snap: &Snap) -> DelaunayReport {
                             && let (Some(pa), Some(pb)) = (coords.get(&apex_a), coords.get(&v.key))
                         {
                             let mut degenerate = false;
+                            let mut on_hull = false;
                             for omit in &facet {
                                 let mut pts: Vec<&[f64]> = vec![pa, pb];
                                 for f in &facet {
@@ -115,11 +150,17 @@ pub fn check(snap: &Snap) -> DelaunayReport {
                                     let o = exact::orient(&pts);
                                     if o.sign == 0 || !o.decidable {
                                         degenerate = true;
+                                        if o.sign == 0 && flat_cell_on_hull_plane(snap, &pts) {
+                                            on_hull = true;
+                                        }
                                     }
                                 }
                             }
                             if degenerate {
                                 rep.local_facets_degenerate_flip += 1;
+                                if on_hull {
+                                    rep.local_facets_degenerate_on_hull += 1;
+                                }
                             }
                         }
                     }
